@@ -137,9 +137,33 @@ func (bf *buffer) ReadFrom(r io.Reader) (int64, error) {
 			return total, io.EOF
 		}
 
-		start, cnt, err := bf.waitForWriteSpace(defaultReadBlockSize)
+		// Ask for a whole read block only if that much room can become free.
+		// The consumer may be waiting for a message that is longer than the
+		// buffer size minus one block and has not arrived completely; it frees
+		// nothing until the rest is here. Insisting on a whole block would then
+		// leave both sides waiting for each other forever (and nobody reading
+		// the connection, so neither its end nor the keep alive is noticed).
+		want := defaultReadBlockSize
+		if free := int(bf.size) - bf.Len(); free < want {
+			want = free
+			if want < 1 {
+				want = 1
+			}
+		}
+
+		start, cnt, err := bf.waitForWriteSpace(want)
 		if err != nil {
 			return 0, err
+		}
+
+		// More room may have become free while waiting.
+		if cnt < defaultReadBlockSize {
+			if free := int(bf.size) - bf.Len(); free > cnt {
+				cnt = free
+				if cnt > defaultReadBlockSize {
+					cnt = defaultReadBlockSize
+				}
+			}
 		}
 
 		pstart := start & bf.mask
